@@ -207,6 +207,23 @@ def work(task):
                     expect_bool(res, f'{a} + {b} == {c}', s == fc, 'cmp-sum')
                     expect_bool(res, f'{a} + {b} < {c}', s < fc, 'cmp-sum')
                     res.count('triples')
+    elif kind == 'ints':
+        # Python ints enter through len(): int / int must be decimal division too
+        for i in range(0, 8):
+            for j in range(0, 8):
+                a, b2 = 'len("%s")' % ('a' * i), 'len("%s")' % ('b' * j)
+                fi, fj = Fraction(i), Fraction(j)
+                for op in BINOPS:
+                    try:
+                        want = model_bin(op, fi, fj)
+                    except X.NumError:
+                        want = 'error'
+                    expect_number(res, f'{a} {op} {b2}', want, f'int{op}')
+                    expect_number(res, f'x = {a}; x {op}= {b2}; x', want, f'int{op}=')
+                    expect_number(res, f'c = [{a}]; c[0] {op}= {b2}; c[0]', want, f'int-index{op}=')
+                if j:
+                    expect_bool(res, f'{a} / {b2} == {i} / {j}', True, 'int-cmp')
+                res.count('pairs')
     elif kind == 'builtins':
         _, As, lits = task
         for a in As:
@@ -250,6 +267,7 @@ def main(tier, seed, t0):
         tasks.append(('triples', [a], red))
     for i in range(0, len(allv), 8):
         tasks.append(('builtins', allv[i:i + 8], red))
+    tasks.append(('ints',))
     tasks = runner.rotate(tasks, seed)
     total = runner.run_tasks(work, tasks)
     n = total.n
